@@ -156,7 +156,13 @@ func gGenPolicies(tag string, n, mode int) []gPolicy {
 	var ps []gPolicy
 	for i := 0; i < n; i++ {
 		q, _ := gGenQuery(tag+".q", mode)
-		ps = append(ps, gPolicy{deny: vBool(tag + ".deny"), queries: []gRule{q}})
+		qs := []gRule{q}
+		// policies with alternative queries ("allow if A or B")
+		if vParam("polq") >= 2 && vChoose(tag+".or", 2) == 1 {
+			q2, _ := gGenQuery(tag+".q2", mode)
+			qs = append(qs, q2)
+		}
+		ps = append(ps, gPolicy{deny: vBool(tag + ".deny"), queries: qs})
 	}
 	return ps
 }
